@@ -129,6 +129,17 @@ pub fn check_symbol(ctx: &mut Ctx, family: &str, s: &RS) {
                 counted = false;
             }
         }
+        if !counted {
+            // too many generators for the homomorphism counter: the reference backtracking search instead
+            if let Some(acts) = low_index_ref(tb.ngens, &tb.rels, k, 2_000_000) {
+                expected = vec![0usize; k + 1];
+                for a in &acts {
+                    expected[a.len()] += 1;
+                }
+                counted = true;
+                ctx.add("cover_counts_by_backtracking_reference", 1);
+            }
+        }
         if counted {
             ctx.ops(1);
             ctx.add("cover_counts_compared", 1);
@@ -227,7 +238,7 @@ pub fn check_symbol(ctx: &mut Ctx, family: &str, s: &RS) {
 /// 3-dimensional Coxeter groups): the low-index search behind `covers` reaches index 10 [12] here, far beyond
 /// the exhaustive family.  Every entry must be a genuine covering with at most k sheets, the list for k must
 /// extend the list for k - 1 without changing the counts per sheet number, and no two entries may be
-/// equivalent as coverings.  (No class count: the homomorphism-counting reference stops at index 7.)
+/// equivalent as coverings; the counts per sheet number are those of the reference backtracking search (R5b).
 fn deep_covers(ctx: &mut Ctx) {
     let kmax = ctx.tier.pick(10, 12);
     let mut bases: Vec<RS> = vec![];
@@ -297,6 +308,24 @@ fn deep_covers(ctx: &mut Ctx) {
             if !prev.is_empty() && prev[1..] != by_sheets[1..prev.len()] {
                 ctx.violation("cover-count", kcase.clone(), format!("covers per sheet number {:?} for bound {}, but {:?} for bound {}", &by_sheets[1..], k, &prev[1..], k - 1), weight);
                 return;
+            }
+            if k == kmax {
+                // class count from the reference backtracking search on the textbook presentation
+                let tb = textbook_pi1(&s);
+                match low_index_ref(tb.ngens, &tb.rels, k, 20_000_000) {
+                    Some(acts) => {
+                        let mut exp = vec![0usize; k + 1];
+                        for a in &acts {
+                            exp[a.len()] += 1;
+                        }
+                        ctx.add("deep_cover_counts_compared", 1);
+                        if by_sheets[1..] != exp[1..] {
+                            ctx.violation("cover-count", kcase.clone(), format!("covers per sheet number {:?}, conjugacy classes of subgroups per index {:?} (textbook presentation, reference backtracking search)", &by_sheets[1..], &exp[1..]), weight);
+                            return;
+                        }
+                    }
+                    None => ctx.add("deep_cover_counts_skipped_for_cost", 1),
+                }
             }
             prev = by_sheets;
             if k == kmax {
